@@ -1,0 +1,7 @@
+//go:build verif
+
+package server
+
+import "github.com/creachadair/jrpc2"
+
+func verifPoint(site string) { jrpc2.VerifPoint(site) }
